@@ -742,7 +742,8 @@ impl<'s> Tokenizer<'s> {
             {
                 let ws = Whitespace::from_byte(self.rest_bytes().get(ptr).copied());
                 let end = ptr - self.block_start().len();
-                let mut result = &self.rest()[..end];
+                let body = &self.rest()[..end];
+                let mut result = body;
                 self.advance(end);
                 let span = self.span(old_loc);
                 self.advance(self.block_start().len() + endraw);
@@ -761,7 +762,17 @@ impl<'s> Tokenizer<'s> {
                     _ => {}
                 }
                 result = match ws {
-                    Whitespace::Default if self.ws_config.lstrip_blocks => lstrip_block(result),
+                    Whitespace::Default if self.ws_config.lstrip_blocks => {
+                        // the end tag only starts a line if a newline of the raw body
+                        // precedes it; whitespace that reaches back to the raw tag itself
+                        // is content.
+                        let stripped = lstrip_block(body);
+                        if stripped.ends_with('\n') {
+                            &result[..result.len().saturating_sub(body.len() - stripped.len())]
+                        } else {
+                            result
+                        }
+                    }
                     Whitespace::Remove => result.trim_end(),
                     _ => result,
                 };
